@@ -1131,7 +1131,7 @@ fn run_case(cli: &Cli, shard: usize, case_idx: u64, rng: &mut Rng, r: &mut Repor
         let store = Store::new_mem();
         let clock = Arc::new(ManualClock::new(Duration::from_secs(cfg.start_time)));
         let world = match report::catch(|| build_node_at(&cfg, &store, clock.clone(), st)) {
-            Ok(Ok(node)) => World { cfg: cfg.clone(), store, clock, node, restarts: 0, external: Default::default() },
+            Ok(Ok(node)) => World { cfg: cfg.clone(), store, clock, node, restarts: 0, external: Default::default(), last_mutations: Default::default() },
             Ok(Err(e)) => {
                 r.inconclusive(&format!("cannot build node: {}", e));
                 return;
